@@ -32,6 +32,10 @@ Definition expected_reads : list (string * string) := [
   ("system.(AdaptiveSlot).Check", "system.getRules");
   ("flow.(Slot).Check", "flow.getTrafficControllerListFor");
   ("flow.(StandaloneStatSlot).OnEntryPassed", "flow.getTrafficControllerListFor");
+  (* since fix 8bbc68d: a second, different list (controllers of associated-resource rules of OTHER
+     resources whose independent statistic counts this resource) - read once, outside the loop, used
+     only to record a passed request, never for a decision *)
+  ("flow.(StandaloneStatSlot).OnEntryPassed", "flow.getRefStatControllerListFor");
   ("isolation.(Slot).Check", "isolation.getRulesOfResource");
   ("hotspot.(Slot).Check", "hotspot.getTrafficControllersFor");
   ("hotspot.(ConcurrencyStatSlot).OnEntryPassed", "hotspot.getTrafficControllersFor");
